@@ -141,7 +141,8 @@ where
             }
             (LTermInner::Var(_, _), LTermInner::Var(_, _), LTermInner::Val(LValue::Number(_)))
             | (LTermInner::Var(_, _), LTermInner::Val(LValue::Number(_)), LTermInner::Var(_, _))
-            | (LTermInner::Val(LValue::Number(_)), LTermInner::Var(_, _), LTermInner::Var(_, _)) => {
+            | (LTermInner::Val(LValue::Number(_)), LTermInner::Var(_, _), LTermInner::Var(_, _))
+            | (LTermInner::Var(_, _), LTermInner::Var(_, _), LTermInner::Var(_, _)) => {
                 /* Not enough terms grounded to verify constraint. */
                 Ok(state.with_constraint(self))
             }
